@@ -3,6 +3,7 @@ package main
 import (
 	"bytes"
 	"fmt"
+	"os"
 	"strings"
 
 	"olverif/internal/drive"
@@ -45,6 +46,9 @@ func checkC10(tier string) int {
 	r.Gate("set_changing_blocks", nh)
 	r.Gate("blocks_with_more_eligible_than_seats", nh)
 	parallel(nh, 8, func(i int) {
+		if only := os.Getenv("VERIF_ONLY"); only != "" && only != fmt.Sprint(i) { // triage aid
+			return
+		}
 		hseed := seed*1000 + int64(i)
 		top := int64(4 + i%3)
 		params := world.Params{Frankenstein: 0, NumGenesisVals: 4, NumCandidates: 4, NumEthUsers: 0, TopValidators: top, ChainID: fmt.Sprintf("OneLedger-c10-%d", hseed)}
@@ -126,6 +130,14 @@ func checkC10(tier string) int {
 				us = append(us, fmt.Sprintf("%s=%d", u.PubKey[:8], u.Power))
 			}
 			set := strings.Join(us, ",")
+			if os.Getenv("DEBUG_C10") != "" {
+				fmt.Printf("DEBUG h=%d updates=[%s] absent=%v\n", blk.H, set, blk.Recipe.Absent)
+				for _, t := range blk.Txs {
+					if stakeKinds[t.Kind] {
+						fmt.Printf("DEBUG   %s code=%d %q %s\n", t.Kind, t.Call.Code, t.Note, cut(t.Call.Log, 100))
+					}
+				}
+			}
 			if set != lastSet {
 				changing = true
 				r.Count("set_changing_blocks", 1)
@@ -161,6 +173,10 @@ func checkC10(tier string) int {
 				r.Count("convergence_checks", 1)
 				r.Case(fmt.Sprintf("%d/%d/converged", hseed, blk.H), true)
 				for _, f := range mon.C10Converged(blk.Cur, vs.Vals, blk.H) {
+					if f.Prop == "COUNT" {
+						r.Count(f.Sig, 1)
+						continue
+					}
 					r.Violate(verdict.Violation{Signature: f.Sig, What: fmt.Sprintf("history seed %d: %s", hseed, f.What), Witness: map[string]interface{}{"seed": hseed, "height": blk.H, "tendermint_set": vs.Vals, "recipes": run.Recipes()}})
 					return true
 				}
